@@ -9,7 +9,10 @@ INSTR = [("NOP", 1, ""), ("RET", 1, ""), ("SC", 1, ""), ("MV A, {n8}", 2, ""), (
          ("MV Y, {n20}", 4, ""), ("ADD A, {n8}", 2, ""), ("INC A", 2, ""), ("CMP A, {n8}", 2, ""), ("MV A, [{L}]", 4, "L"),
          ("MV [{L}], A", 4, "L"), ("JPF {L}", 4, "L"), ("CALLF {L}", 4, "L"), ("JP {N}", 3, "N"), ("CALL {N}", 3, "N"),
          ("JPZ {N}", 3, "N"), ("JR +{n8}", 2, ""), ("JRNZ -{n8}", 2, ""), ("MV (BP+{n8}), {n8}", 4, ""), ("MV A, (BP+{n8})", 3, ""),
-         ("PUSHU A", 1, ""), ("POPU BA", 1, ""), ("MV (0x10), (0x20)", 4, ""), ("EX A, B", 1, ""), ("WAIT", 1, "")]
+         ("PUSHU A", 1, ""), ("POPU BA", 1, ""), ("MV (0x10), (0x20)", 4, ""), ("EX A, B", 1, ""), ("WAIT", 1, ""),
+         # the same opcodes in forms of another length (no prefix / no displacement byte)
+         ("MV A, ({m8})", 2, ""), ("MV ({m8}), {n8}", 3, ""), ("MV A, (PX+{n8})", 3, ""), ("MV A, [X]", 2, ""), ("MV A, [X+{n8}]", 3, ""),
+         ("MV [Y-{n8}], A", 3, ""), ("MV [Y], A", 2, ""), ("ADD A, ({m8})", 2, ""), ("ADD A, (BP+PX)", 2, "")]
 DATA = [("defb {n8}", 1, ""), ("defb {n8}, {n8}, {n8}", 3, ""), ("defw {n16}", 2, ""), ("defw {L16}, {n16}", 4, "L"),
         ("defl {L}", 3, "L"), ("defl {n20}, {L}", 6, "L"), ("defs {k}", None, ""), ('defm "{str}"', None, "")]
 
@@ -58,6 +61,8 @@ def gen_program(rng, idx, adversarial):
 def fill(rng, text, syms, here, near_ok=True):
     """substitute operand placeholders; returns text or None when a near target is on another page"""
     out = text
+    while "{m8}" in out:                      # a direct internal-memory address below the named registers
+        out = out.replace("{m8}", f"0x{rng.randrange(0xD0):02x}", 1)
     while "{n8}" in out:
         out = out.replace("{n8}", f"0x{rng.randrange(256):02x}", 1)
     while "{n16}" in out:
